@@ -811,7 +811,8 @@ fn handle_multiline_string(lexer: &mut Lexer, ctx: &mut StaticsContext, file_id:
         } else {
             indent
         };
-        let slice1 = slice2.min(lexer.index + begin + indent);
+        // `indent` is still usize::MAX when every line after the first is blank
+        let slice1 = slice2.min((lexer.index + begin).saturating_add(indent));
 
         for c in &lexer.chars[slice1..slice2] {
             string_val.push(*c);
